@@ -49,8 +49,9 @@ func pure(native interface{}, sym func(r *Run, args []value) value) StubFn {
 }
 
 func strArg(v value) *Term {
-	if rv, ok := v.(runesV); ok {
-		return runesToStr(rv)
+	if _, ok := v.(runesV); ok {
+		// never fall back to the SMT string theory for vector strings (performance trap)
+		panic(unsupported("SMT-string stub applied to a vector string"))
 	}
 	return asTerm(v)
 }
@@ -90,7 +91,7 @@ func concatV(a, b value) value {
 	_, ar := a.(runesV)
 	_, br := b.(runesV)
 	if ar || br {
-		return runesConcat(toRunes(a), toRunes(b))
+		return runesConcat(a, b)
 	}
 	as, aok := a.(string)
 	bs, bok := b.(string)
@@ -274,18 +275,44 @@ func BaseStubs() map[string]StubFn {
 
 	// ---- strings
 	st["strings.HasPrefix"] = pure(strings.HasPrefix, func(r *Run, a []value) value {
+		if isVec(a...) {
+			m := vecMode(a[0], a[1])
+			return r.vecHasPrefix(vecOf(a[0], m), vecOf(a[1], m))
+		}
 		return simplifyBool(PrefixOf(strArg(a[1]), strArg(a[0])))
 	})
 	st["strings.HasSuffix"] = pure(strings.HasSuffix, func(r *Run, a []value) value {
+		if isVec(a...) {
+			m := vecMode(a[0], a[1])
+			return r.vecHasSuffix(vecOf(a[0], m), vecOf(a[1], m))
+		}
 		return simplifyBool(SuffixOf(strArg(a[1]), strArg(a[0])))
 	})
 	st["strings.Contains"] = pure(strings.Contains, func(r *Run, a []value) value {
+		if isVec(a...) {
+			m := vecMode(a[0], a[1])
+			return r.vecContains(vecOf(a[0], m), vecOf(a[1], m))
+		}
 		return simplifyBool(Contains(strArg(a[0]), strArg(a[1])))
 	})
 	st["strings.Index"] = pure(strings.Index, func(r *Run, a []value) value {
+		if isVec(a...) {
+			m := vecMode(a[0], a[1])
+			if !m {
+				panic(unsupported("strings.Index on rune vector"))
+			}
+			return r.vecIndex(vecOf(a[0], m), vecOf(a[1], m), false)
+		}
 		return termOrInt(IndexOf(strArg(a[0]), strArg(a[1]), IntT(0)))
 	})
 	st["strings.LastIndex"] = pure(strings.LastIndex, func(r *Run, a []value) value {
+		if isVec(a...) {
+			m := vecMode(a[0], a[1])
+			if !m {
+				panic(unsupported("strings.LastIndex on rune vector"))
+			}
+			return r.vecIndex(vecOf(a[0], m), vecOf(a[1], m), true)
+		}
 		// last index of a constant separator: s = pre ++ sep ++ post, post free of sep; or -1
 		s, sep := strArg(a[0]), strArg(a[1])
 		if !sep.IsConst() {
@@ -336,28 +363,6 @@ func BaseStubs() map[string]StubFn {
 		return out
 	})
 	st["strings.Repeat"] = pure(strings.Repeat, nil)
-	st["strings.Cut"] = pure(strings.Cut, func(r *Run, a []value) value {
-		s, sep := strArg(a[0]), strArg(a[1])
-		if !r.branch(simplifyBool(Contains(s, sep))) {
-			return tuple{termOrString(s), "", false}
-		}
-		idx := IndexOf(s, sep, IntT(0))
-		return tuple{termOrString(Substr(s, IntT(0), idx)), termOrString(Substr(s, Add(idx, StrLen(sep)), StrLen(s))), true}
-	})
-	st["strings.TrimSuffix"] = pure(strings.TrimSuffix, func(r *Run, a []value) value {
-		s, suf := strArg(a[0]), strArg(a[1])
-		if r.branch(simplifyBool(SuffixOf(suf, s))) {
-			return termOrString(Substr(s, IntT(0), Sub(StrLen(s), StrLen(suf))))
-		}
-		return termOrString(s)
-	})
-	st["strings.TrimPrefix"] = pure(strings.TrimPrefix, func(r *Run, a []value) value {
-		s, p := strArg(a[0]), strArg(a[1])
-		if r.branch(simplifyBool(PrefixOf(p, s))) {
-			return termOrString(Substr(s, StrLen(p), StrLen(s)))
-		}
-		return termOrString(s)
-	})
 	st["strconv.ParseInt"] = func(r *Run, fr *frame, fn *ssa.Function, a []value) value {
 		if anySym(a) {
 			panic(unsupported("strconv.ParseInt on symbolic string"))
@@ -373,6 +378,39 @@ func BaseStubs() map[string]StubFn {
 	st["unicode.IsDigit"] = pure(unicode.IsDigit, nil)
 	st["path.Base"] = pure(path.Base, nil)
 	st["path.Dir"] = pure(path.Dir, nil)
+
+	st["internal/bytealg.IndexByteString"] = func(r *Run, fr *frame, fn *ssa.Function, a []value) value {
+		if !anySym(a) {
+			return strings.IndexByte(a[0].(string), a[1].(byte))
+		}
+		if isVec(a[0]) {
+			c, ok := a[1].(uint8)
+			if !ok {
+				panic(unsupported("IndexByteString with symbolic byte"))
+			}
+			return r.vecIndex(vecOf(a[0], true), vecOf(string([]byte{c}), true), false)
+		}
+		panic(unsupported("IndexByteString on symbolic string"))
+	}
+	st["internal/bytealg.LastIndexByteString"] = func(r *Run, fr *frame, fn *ssa.Function, a []value) value {
+		if !anySym(a) {
+			return strings.LastIndexByte(a[0].(string), a[1].(byte))
+		}
+		if isVec(a[0]) {
+			c, ok := a[1].(uint8)
+			if !ok {
+				panic(unsupported("LastIndexByteString with symbolic byte"))
+			}
+			return r.vecIndex(vecOf(a[0], true), vecOf(string([]byte{c}), true), true)
+		}
+		panic(unsupported("LastIndexByteString on symbolic string"))
+	}
+	st["internal/stringslite.Index"] = st["strings.Index"]
+	st["internal/stringslite.HasPrefix"] = st["strings.HasPrefix"]
+	st["internal/stringslite.HasSuffix"] = st["strings.HasSuffix"]
+	st["internal/stringslite.IndexByte"] = func(r *Run, fr *frame, fn *ssa.Function, a []value) value {
+		return r.E.Stubs["internal/bytealg.IndexByteString"](r, fr, fn, a)
+	}
 
 	// ---- fmt / errors
 	st["fmt.Sprintf"] = func(r *Run, fr *frame, fn *ssa.Function, a []value) value {
@@ -536,6 +574,11 @@ func BaseStubs() map[string]StubFn {
 
 func lenV(v value) value {
 	switch x := v.(type) {
+	case runesV:
+		if x.bytes {
+			return len(x.cps)
+		}
+		panic(unsupported("byte length of rune vector"))
 	case string:
 		return len(x)
 	case *Term:
